@@ -62,6 +62,7 @@ func checkC10(c *core.Ctx, r *core.Report) {
 		"(2) writer/reader framing agreement (CRC over the bytes written, size = len+K on both sides, field order size|crc|payload); " +
 		"(3) ORDER persist-before-discard: every call that may delete a WAL file is preceded on all paths by the call that makes its content durable, and only where that call's error is nil; every discard site is owned by such an obligation; " +
 		"(4) ATOMIC for the WAL that is rewritten instead of appended; " +
+		"(8) LIVE — every field of the per-block datapoint-WAL state that is advanced while a block is filled (buffer position, file index, file list) is reset where the block's WAL is discarded and re-initialised; " +
 		"(5) a datapoint WAL file is created (truncating open) only after the name component that distinguishes it from the live file was advanced, or after the block's previous files were deliberately discarded."
 	r.NotCovered = "that replayed datapoints equal the appended ones (zstd and binary encodings), buffering before append, torn writes inside one write call"
 	sm := newSummaries(c)
@@ -591,7 +592,35 @@ func checkC10(c *core.Ctx, r *core.Report) {
 				}
 			}
 		}
-		r.Check(uses[idxF] && uses[blkF], "ORDER", "metrics.MetricsBlock.initNewDpWal:file-name-from-block-number-and-wal-index", c.Pos(initWal.Pos()), "the WAL file name is built from the block number and the per-block WAL index", "the datapoint WAL file name no longer depends on the block number and the WAL index")
+		// the WAL index may also arrive as an integer parameter whose every argument is the per-block index field
+		// (plus a constant) or a constant
+		idxParam := -1
+		if !uses[idxF] {
+			for i, p := range initWal.Params {
+				if bt, ok := p.Type().Underlying().(*types.Basic); ok && bt.Info()&types.IsInteger != 0 && p.Referrers() != nil && len(*p.Referrers()) > 0 {
+					idxParam = i
+				}
+			}
+			if idxParam >= 0 {
+				for _, site := range c.StaticCallers()[initWal] {
+					ok := false
+					arg := site.Common().Args[idxParam]
+					if _, isK := core.ConstIntValue(arg); isK {
+						ok = true
+					}
+					for _, o := range c.Origins(arg, 0) {
+						if o.Kind == "field" && o.Obj == types.Object(idxF) {
+							ok = true
+						}
+					}
+					if !ok {
+						idxParam = -1
+						break
+					}
+				}
+			}
+		}
+		r.Check((uses[idxF] || idxParam >= 0) && uses[blkF], "ORDER", "metrics.MetricsBlock.initNewDpWal:file-name-from-block-number-and-wal-index", c.Pos(initWal.Pos()), "the WAL file name is built from the block number and the per-block WAL index", "the datapoint WAL file name no longer depends on the block number and the WAL index")
 		n := 0
 		for _, fn := range c.RepoFunctions() {
 			for i, call := range callsTo(fn, initWal.Object()) {
@@ -620,6 +649,18 @@ func checkC10(c *core.Ctx, r *core.Report) {
 						}
 					}
 				}
+				if fresh == "" && idxParam >= 0 && idxParam < len(call.Call.Args) {
+					// the index handed over is the current index plus a positive constant
+					if bo, ok := call.Call.Args[idxParam].(*ssa.BinOp); ok && bo.Op == token.ADD {
+						if k, ok := core.ConstIntValue(bo.Y); ok && k >= 1 {
+							for _, o := range c.Origins(bo.X, 0) {
+								if o.Kind == "field" && o.Obj == types.Object(idxF) {
+									fresh = "the WAL index handed over is the current one plus a positive constant"
+								}
+							}
+						}
+					}
+				}
 				construct := fmt.Sprintf("%s:initNewDpWal#%d-creates-a-file-under-a-fresh-name", shortFn(fn), i+1)
 				r.Check(fresh != "", "ORDER", construct, c.Pos(call.Pos()), fresh,
 					"a datapoint WAL file is created (opened with O_TRUNC) without first advancing the WAL index, changing the block / segment number or discarding the block's previous files: the name is that of the live WAL file, whose completed appends are wiped, so a crash before the block is flushed replays only the tail written after the rotation")
@@ -629,6 +670,7 @@ func checkC10(c *core.Ctx, r *core.Report) {
 
 		checkWalAfterBlockNumber(c, r, sm)
 		checkNoEmptyNameBlock(c, r)
+		checkWalStateReset(c, r)
 	}
 
 	// ---------------------------------------------------------------- (7) the WAL files of a block are replayed in index order
@@ -944,6 +986,25 @@ func checkRecoverDiscard(c *core.Ctx, r *core.Report, sm *summaries, fn *ssa.Fun
 		if isB(ci) {
 			bSites = append(bSites, ci)
 			owned[ci] = true
+		}
+	}
+	if len(aCalls) == 0 {
+		// the rebuild-and-flush part extracted into a helper: the call of a same-package function from which the
+		// persisting call is reachable and that reports an error stands for it (its failure edge is then the
+		// failure of the flush, or of something before it — either way the replayed files must stay)
+		may := sm.mayPred(objs(persist))
+		for _, ci := range core.CallsIn(fn) {
+			call, ok := ci.(*ssa.Call)
+			if !ok || !may(ci) {
+				continue
+			}
+			h := call.Call.StaticCallee()
+			if h == nil || core.FnPkgPath(h) != core.FnPkgPath(fn) {
+				continue
+			}
+			if ev, _ := errResultOf(call); ev != nil {
+				aCalls = append(aCalls, call)
+			}
 		}
 	}
 	if len(aCalls) != 1 || len(bSites) == 0 {
@@ -1270,4 +1331,129 @@ func checkNoEmptyNameBlock(c *core.Ctx, r *core.Report) {
 		}
 	}
 	r.Floor("GUARD", "appends of pending metric names to the name WAL", n, 1)
+}
+
+// checkWalStateReset — clause (8).  When a block is rotated its datapoint WAL is discarded and a new one is started
+// (MetricsBlock.cleanAndInitNewDpWal).  Everything the per-block WAL state accumulates has to start over there:
+// the position in the in-memory WAL buffer (datapoints still buffered were persisted with the rotated block; left
+// in the buffer they are appended to the NEXT block's WAL and replayed into the wrong block after a crash), the
+// per-block file index and the list of the block's WAL files.  The fields are not frozen in a table: they are the
+// fields of dpWalState that some code of the package advances from their own value (x++, x = x + k — also through
+// a parameter — or append(x, …)).  For each of them the cone of cleanAndInitNewDpWal contains a store of a start
+// value: the constant 0, x[:0], or a parameter that is the constant 0 at the call made from that cone.
+func checkWalStateReset(c *core.Ctx, r *core.Report) {
+	clean := c.Fn(pkgMetrics, "MetricsBlock.cleanAndInitNewDpWal")
+	stT := c.NamedType(pkgMetrics, "dpWalState")
+	st := stT.Underlying().(*types.Struct)
+	own := map[*types.Var]bool{}
+	for i := 0; i < st.NumFields(); i++ {
+		own[st.Field(i)] = true
+	}
+	inPkg := func(fn *ssa.Function) bool { return core.FnPkgPath(fn) == core.ModPath+"/"+pkgMetrics }
+	// advanced fields
+	advanced := map[*types.Var]ssa.Instruction{}
+	for _, fn := range c.RepoFunctions() {
+		if !inPkg(fn) {
+			continue
+		}
+		for _, b := range fn.Blocks {
+			for _, in := range b.Instrs {
+				s, ok := in.(*ssa.Store)
+				if !ok {
+					continue
+				}
+				fa, ok := s.Addr.(*ssa.FieldAddr)
+				if !ok {
+					continue
+				}
+				f := core.FieldOfAddr(fa)
+				if f == nil || !own[f] {
+					continue
+				}
+				if _, isK := s.Val.(*ssa.Const); isK {
+					continue
+				}
+				for _, o := range c.Origins(s.Val, 1) {
+					if o.Kind == "field" && o.Obj == types.Object(f) {
+						if _, isSlice := s.Val.(*ssa.Slice); isSlice {
+							continue // x = x[:0] is a reset, not an advance
+						}
+						advanced[f] = s
+					}
+				}
+			}
+		}
+	}
+	// the cone of the clean-and-init function
+	cone := []*ssa.Function{clean}
+	seen := map[*ssa.Function]bool{clean: true}
+	for i := 0; i < len(cone) && i < 32; i++ {
+		for _, ci := range core.CallsIn(cone[i]) {
+			if h := ci.Common().StaticCallee(); h != nil && h.Blocks != nil && inPkg(h) && !seen[h] {
+				seen[h] = true
+				cone = append(cone, h)
+			}
+		}
+	}
+	startValue := func(fn *ssa.Function, v ssa.Value) bool {
+		if k, ok := core.ConstIntValue(v); ok {
+			return k == 0
+		}
+		if core.IsNilConst(v) {
+			return true
+		}
+		switch x := v.(type) {
+		case *ssa.Slice:
+			if x.High != nil {
+				if k, ok := core.ConstIntValue(x.High); ok && k == 0 {
+					return true
+				}
+			}
+		case *ssa.MakeSlice, *ssa.MakeMap:
+			return true
+		case *ssa.Parameter:
+			// the constant 0 at the call made from the cone
+			idx := -1
+			for i, p := range fn.Params {
+				if p == x {
+					idx = i
+				}
+			}
+			for _, g := range cone {
+				for _, call := range core.CallsIn(g) {
+					if call.Common().StaticCallee() == fn && idx >= 0 && idx < len(call.Common().Args) {
+						if k, ok := core.ConstIntValue(call.Common().Args[idx]); ok && k == 0 {
+							return true
+						}
+					}
+				}
+			}
+		}
+		return false
+	}
+	var fields []*types.Var
+	for f := range advanced {
+		fields = append(fields, f)
+	}
+	sort.Slice(fields, func(i, j int) bool { return fields[i].Name() < fields[j].Name() })
+	for _, f := range fields {
+		reset := false
+		for _, g := range cone {
+			for _, b := range g.Blocks {
+				for _, in := range b.Instrs {
+					s, ok := in.(*ssa.Store)
+					if !ok {
+						continue
+					}
+					if fa, ok := s.Addr.(*ssa.FieldAddr); ok && core.FieldOfAddr(fa) == f && startValue(g, s.Val) {
+						reset = true
+					}
+				}
+			}
+		}
+		r.Check(reset, "LIVE", fmt.Sprintf("metrics.MetricsBlock.cleanAndInitNewDpWal:%s-starts-over-with-the-new-block", f.Name()), c.Pos(advanced[f].Pos()),
+			"reset to its start value when the block's WAL is discarded and re-initialised",
+			fmt.Sprintf("dpWalState.%s is advanced while a block is being filled but is not reset where the block's datapoint WAL is discarded and a new one started: what it accumulated for the rotated block (datapoints still in the WAL buffer, the file index, the file list) is carried into the next block's WAL — datapoints already persisted with the rotated block are appended to the next block's WAL and replayed into the wrong block after a crash", f.Name()))
+	}
+	r.Floor("LIVE", "fields of the per-block WAL state that are advanced", len(fields), 2)
 }
